@@ -11,6 +11,12 @@ CHECKS.update({
  'C13': ("Decides the liveness preconditions of background maintenance: the worker's message loop is left only through the Stop arm that is constructed only on recv()==None, no panic written in the worker module is reachable in the loop; one channel whose Sender is never cloned and is dropped before the worker handle is awaited; no guard live where close() joins the worker; after every ok write the size/count condition is evaluated and its true edge sends the rotation request whose handler reaches blob replacement; no armed wait-for cycle involves the worker. Not decided: bounded-time completion of requested dumps.",
          "natural-loop exit analysis, dominance, held-guard dataflow and wait-for graph over rustc MIR", "DESIGN.md 6/C13"),
 })
+CHECKS.update({
+ 'C11': ("Decides the error-path structure behind fault containment, on CFG paths no healthy-machine test takes (every `?` Break edge and explicit Err return): no err-exit between a move-out of shared state (active blob slot, closed list, in-memory header map) and its hand-back; an Err from a worker message never ends the maintenance loop; no Result of a fallible storage-layer call is dropped unobserved; file data is written with all-or-error primitives or the byte count is compared; a record header reaches the index only on the ok edge of its append. Not decided: the outcome of every n-th failing operation, the size counter after a short write.",
+         "error-exit path analysis (must-pass-through between move-out and hand-back), result-use dataflow over rustc MIR", "DESIGN.md 6/C11"),
+ 'C14': ("Decides structural necessary conditions of cancellation safety using the `yield ... drop:` edges of pre-transform MIR as the cancellation points: offset reservation and the OS write lie in non-coroutine bodies run by a blocking runner; no yield between a completed append and its index push; in client-cancellable bodies no yield between a move-out of shared state and its hand-back; no RAII guard whose Drop undoes a counter reservation is live across a yield. Not decided: all-or-nothing effect of multi-blob deletes, the state after dropping at each of the k polls.",
+         "suspension-point (yield) path analysis over pre-transform coroutine MIR + call-graph reachability from client-held futures", "DESIGN.md 6/C14"),
+})
 NOT_APPLICABLE = {
  'C02': "not claimed in this commit: rules under construction (see DESIGN.md section 6 for the planned structural clauses)",
  'C03': "not claimed in this commit: rules under construction (see DESIGN.md section 6 for the planned structural clauses)",
@@ -18,8 +24,6 @@ NOT_APPLICABLE = {
  'C05': "not claimed in this commit: rules under construction (see DESIGN.md section 6 for the planned structural clauses)",
  'C06': "not claimed in this commit: rules under construction (see DESIGN.md section 6 for the planned structural clauses)",
  'C10': "not claimed in this commit: rules under construction (see DESIGN.md section 6 for the planned structural clauses)",
- 'C11': "not claimed in this commit: rules under construction (see DESIGN.md section 6 for the planned structural clauses)",
- 'C14': "not claimed in this commit: rules under construction (see DESIGN.md section 6 for the planned structural clauses)",
  'C15': "not claimed in this commit: rules under construction (see DESIGN.md section 6 for the planned structural clauses)",
  'C16': "not claimed in this commit: rules under construction (see DESIGN.md section 6 for the planned structural clauses)",
  'C17': "not claimed in this commit: rules under construction (see DESIGN.md section 6 for the planned structural clauses)",
